@@ -1256,6 +1256,22 @@ fn drive_fixedlen_huge<const N: usize>(c: &mut Case, arena_limit: bool) -> Res {
             if i % 8192 == 0 || i == 65535 || i == 65536 || i == 65537 { opt_eq("get", stored - 1, v.get(stored - 1), Some(&mk(stored - 1)))?; opt_eq("get", stored, v.get(stored), None)?; c.ev(2); } }
         if arena_limit && N >= 255 && refused == 0 { return Err(bad("driver", "arena limit not reached".into())); }
         c.note("limit_refused", refused);
+        // end game at the limit: walk the arena to exactly 2^24 - 1 bytes, then offer 1-byte and empty strings. Whether a push is
+        // accepted there is the container's business; every ACCEPTED push must read back, and nothing stored earlier may change
+        let mut tail: Vec<(usize, String)> = Vec::new();
+        if arena_limit && (1usize << 24) - bytes <= 600 {
+            let mut offer = |v: &mut FixedLenStrVec<N>, s: String, stored: &mut usize, bytes: &mut usize, tail: &mut Vec<(usize, String)>| -> Res {
+                if v.push(&s).is_ok() { let i = *stored; *stored += 1; *bytes += s.len(); if v.len() != *stored { return Err(bad("len", format!("len {} want {} after a push at arena size {}", v.len(), *stored, *bytes - s.len()))); }
+                    if v.get(i) != Some(s.as_str()) { return Err(bad("content", format!("push({s:?}) accepted with the arena at {} bytes, get({i}) = {:?}", *bytes - s.len(), v.get(i)))); } tail.push((i, s)); }
+                else if v.len() != *stored { return Err(bad("len", format!("len {} want {} after a refused push", v.len(), *stored))); }
+                Ok(()) };
+            while (1usize << 24) - bytes > 1 { let l = ((1usize << 24) - bytes - 1).min(N).min(255); let before = bytes; offer(&mut v, "z".repeat(l), &mut stored, &mut bytes, &mut tail)?; if bytes == before { break; } }
+            c.note("endgame_arena_bytes_below_limit", ((1usize << 24) - bytes) as u64);
+            for s in ["q", "", "", "r", "", "st", ""] { offer(&mut v, s.to_string(), &mut stored, &mut bytes, &mut tail)?; c.ev(1); }
+            for (i, s) in &tail { if v.get(*i) != Some(s.as_str()) { return Err(bad("content", format!("get({i}) = {:?} want {s:?} (stored during the end game at the arena limit)", v.get(*i)))); } if v.get_bytes(*i) != Some(s.as_bytes()) { return Err(bad("content", format!("get_bytes({i}) after the end game"))); } }
+            opt_eq("get", stored, v.get(stored), None)?;
+        }
+        let stored_main = stored - tail.len(); let stored = stored_main;
         for i in huge_positions(stored, &mut r, 4000) { let w = mk(i); opt_eq("get", i, v.get(i), Some(&w))?; if v.get_bytes(i) != Some(w.as_bytes()) { return Err(bad("content", format!("get_bytes({i})"))); } c.ev(2); }
         if arena_limit { for i in [0usize, stored - 1, stored / 2] { let w = mk(i); if v.find_exact(&w) != Some(i) { return Err(bad("find_exact", format!("find_exact of string {i} = {:?}", v.find_exact(&w)))); } } }
         Ok(())
